@@ -207,3 +207,13 @@ Print Assumptions C06_decoded_tours_feed_the_pipeline.
 Theorem C06_solve_returns_for_every_feasible_flow : stmt_solve_returns_given_flows.
 Proof. exact solve_returns_given_flows. Qed.
 Print Assumptions C06_solve_returns_for_every_feasible_flow.
+
+(** From the TEXT of the listing: time strings DateTime::new accepts (a refused one panics the load: to_raw_bad_time, outside
+    the documented format), references that resolve, figures in range ⇒ the start stage returns (TextLoad.v over Cal.v). *)
+From RS Require Import Cal TextLoad TextLoadStmts TextLoadFacts.
+Theorem C06_start_stage_returns_from_the_text : stmt_text_start_stage_returns.
+Proof. exact text_start_stage_returns. Qed.
+Print Assumptions C06_start_stage_returns_from_the_text.
+Theorem C06_refused_time_string_is_a_load_panic : stmt_to_raw_bad_time.
+Proof. exact to_raw_bad_time. Qed.
+Print Assumptions C06_refused_time_string_is_a_load_panic.
